@@ -125,6 +125,14 @@ theorem step_refines (f : LFile) (op : EditOp) :
     | some e => simp only [Option.map_some, eraseK_abs]
   | insert k h c md =>
     simp only [specStep, lazyStep, dictSet_abs, entryAbs, LRec.abs, forceH, forceM]
+  | adopt k r =>
+    simp only [specStep, lazyStep, LRec.abs]
+    cases hh : forceH r.header with
+    | none => simp only []
+    | some h =>
+      simp only []
+      rw [dictSet_abs]
+      simp only [entryAbs, LRec.abs, forceH]
 
 theorem run_refines (ops : List EditOp) (f : LFile) :
     specRun f.abs ops = (LFile.abs (lazyRun f ops).1, (lazyRun f ops).2) := by
@@ -133,5 +141,29 @@ theorem run_refines (ops : List EditOp) (f : LFile) :
   | cons op ops ih =>
     simp only [specRun, lazyRun, step_refines f op]
     rw [ih (lazyStep f op).1]
+
+theorem lookupK_dictSet {α : Type} (k : Line) (v : α) (d : List (Line × α)) : lookupK k (dictSet k v d) = some v := by
+  induction d with
+  | nil => simp [dictSet, lookupK]
+  | cons kv d ih =>
+    obtain ⟨k', v'⟩ := kv
+    simp only [dictSet]
+    split
+    · rename_i h; simp [lookupK, h]
+    · rename_i h; simp [lookupK, h, ih]
+
+theorem keys_dictSet {α : Type} (k : Line) (v : α) (d : List (Line × α)) :
+    (dictSet k v d).map (·.1) = if k ∈ d.map (·.1) then d.map (·.1) else d.map (·.1) ++ [k] := by
+  induction d with
+  | nil => simp [dictSet]
+  | cons kv d ih =>
+    obtain ⟨k', v'⟩ := kv
+    simp only [dictSet]
+    split
+    · rename_i h; simp [h]
+    · rename_i h
+      have hne : ¬ k = k' := fun e => h e.symm
+      simp only [List.map_cons, ih, List.mem_cons, hne, false_or]
+      split <;> simp
 
 end BiotiteModel.C18
